@@ -19,7 +19,8 @@ EXPLANATION = (
     "its position automaton checks unique decodability, producing the two derivations when it fails. The stat "
     "shortcut of FileHash.refreshed must compare mode, mtime, size and inode with the stat result; to_json/from_json "
     "pair None with the unknown hash. Decides injectivity of the encoding up to SHA-256, not the JSON round trip "
-    "through cattrs nor float fidelity of mtime."
+    "through cattrs nor float fidelity of mtime. "
+    'Also: hashing helpers that receive the HashWords object are followed (optional words make the grammar ambiguous); tracked environment values are looked up in base_env without a default at both call sites; R-C13-6 the content digest reads until a zero-length read and hashes every chunk.'
 )
 ASSUMPTIONS = [
     "SHA-256 is collision resistant; a 32-byte digest is not adversarially chosen to imitate word boundaries",
